@@ -14,6 +14,37 @@ pub fn ord(o: Ordering) -> String {
     .to_string()
 }
 
+/// The same duration built through the other public constructors (integer count, 64-bit count, whole units, arithmetic).
+fn same_value(d: Duration) -> Vec<Duration> {
+    let t = d.total_nanoseconds();
+    let mut v = vec![Duration::from_total_nanoseconds(t), d + Duration::ZERO, Duration::ZERO + d, d - Duration::ZERO];
+    if let Ok(n) = i64::try_from(t) {
+        v.push(Duration::from_truncated_nanoseconds(n));
+        v.push(n * Unit::Nanosecond);
+    }
+    for (u, f) in [
+        (Unit::Microsecond, 1_000_i128),
+        (Unit::Millisecond, 1_000_000),
+        (Unit::Second, 1_000_000_000),
+        (Unit::Minute, 60_000_000_000),
+        (Unit::Hour, 3_600_000_000_000),
+        (Unit::Day, 86_400_000_000_000),
+        (Unit::Week, 604_800_000_000_000),
+        (Unit::Century, 3_155_760_000_000_000_000),
+    ] {
+        if t % f == 0 {
+            if let Ok(q) = i64::try_from(t / f) {
+                v.push(q * u);
+                v.push(u * q);
+            }
+        }
+    }
+    if d != Duration::MIN && d != Duration::MAX {
+        v.push(-(-d));
+    }
+    v
+}
+
 pub fn run(name: &str, a: &Args) -> Option<String> {
     Some(match name {
         "from_parts" => pdur(a.dur(0)),
@@ -87,6 +118,12 @@ pub fn run(name: &str, a: &Args) -> Option<String> {
         "eq" => {
             let x = a.dur(0) == a.dur(2);
             assert!(x != (a.dur(0) != a.dur(2)));
+            // the answer depends on the values only, not on how they were built
+            for p in same_value(a.dur(0)) {
+                for q in same_value(a.dur(2)) {
+                    assert!((p == q) == x, "== differs between two constructions of the same values");
+                }
+            }
             b(x)
         }
         "cmp" => {
@@ -95,6 +132,11 @@ pub fn run(name: &str, a: &Args) -> Option<String> {
             assert!(x.partial_cmp(&y) == Some(o));
             assert!((x < y) == (o == Ordering::Less) && (x > y) == (o == Ordering::Greater));
             assert!((x <= y) == (o != Ordering::Greater) && (x >= y) == (o != Ordering::Less));
+            for p in same_value(x) {
+                for q in same_value(y) {
+                    assert!(p.cmp(&q) == o && p.partial_cmp(&q) == Some(o), "cmp differs between two constructions of the same values");
+                }
+            }
             ord(o)
         }
         "min" => pdur(a.dur(0).min(a.dur(2))),
